@@ -984,8 +984,13 @@ func main() {
 		}
 		return
 	}
+	// Histories stay short in both tiers (thorough = more of them): DbModel (stage B) keeps the whole
+	// WAL, the real head checkpoints it after a few compactions, so long histories with many
+	// compactions, deletes and restarts leave the region where DbModel follows tsdb.DB (seen at 120 ops:
+	// a deleted sample that the model replays from its never-truncated WAL). The out-of-order stream has
+	// no model and uses longer histories in the thorough tier.
 	maxOps := 40
-	if c.Tier == "thorough" {
+	if c.Tier == "thorough" && ooo {
 		maxOps = 120
 	}
 	for i := 0; i < c.N; i++ {
